@@ -52,3 +52,52 @@ PROPS["C01"] = {
     "level_note": "Decides the property for the enumerated limb lattice and depth only; trusted: reference model (self-tested), hooks forward unchanged, stateright search engine.",
     "technique": "explicit-state BFS (stateright) over real-code operation chains + exhaustive lattice enumeration against a reference model",
 }
+
+
+def _std(level, rule, level_text, design_ref, technique, runs, level_note=None, **kw):
+    d = {
+        "level": level, "rule": rule, "assumptions": COMMON_ASSUMPTIONS, "runs": runs,
+        "level_text": level_text, "design_ref": design_ref, "technique": technique,
+        "level_note": level_note or "Decides the property for the enumerated alphabets and bounds only; trusted: reference model (self-tested at start), hooks forward unchanged, search engine.",
+    }
+    d.update(kw)
+    return d
+
+
+PROPS["C02"] = _std(
+    "model_checking",
+    "explicit-state BFS over canonical scalar values (state = value; actions = +,-,*,neg,invert,square,double with a pool scalar on either side) with every transition executed by the real operators and compared with Z/lZ; "
+    "plus exhaustive enumeration of the reducing constructors on the 256/512-bit corner alphabet, canonical decoding around l and 2^k, integer conversions, sums/products/batch inversion over all short sequences, "
+    "and the unpacked limb kernels (hook H3) on their call-site domain. distinct_nontrivial = distinct machine states.",
+    "Explicit-state exploration of operator chains on the real Scalar type against Z/lZ, plus exhaustive corner alphabets for every constructor, for both the 52-bit and 29-bit limb backends.",
+    "DESIGN.md section 4, C02",
+    "explicit-state BFS (stateright) over scalar values + exhaustive corner-alphabet enumeration against a reference model",
+    lambda tier: [R("simd"), R("serial32")] if tier == "quick" else [R("simd"), R("serial32"), R("serial64"), R("fiat32"), R("fiat64")],
+)
+
+PROPS["C03"] = _std(
+    "model_checking",
+    "explicit-state BFS over raw (X,Y,Z,T) limb representations of EdwardsPoint reached by operation histories (add/sub/neg/double/cofactor/recompress with pool points a*B+T_j, incl. all 8 torsion components and decoded points of unknown discrete log); "
+    "oracle on every state: curve equation and XY=ZT on the exported limbs, affine point = complete affine addition law, compress, ==, is_identity, is_small_order, is_torsion_free; "
+    "plus the decoder on ~1200-1300 structured encodings (every y in 0..255 and p-256..p+18 with both sign bits, non-canonical y, negative zero). distinct_nontrivial = distinct machine states.",
+    "Explicit-state exploration of group-operation histories on the real EdwardsPoint representation against the affine twisted-Edwards law, with torsion and exceptional points in the alphabet; decoder enumerated on structured encodings.",
+    "DESIGN.md section 4, C03",
+    "explicit-state BFS (stateright) over real point representations + decoder alphabet enumeration against the affine group law",
+    lambda tier: [R("simd"), R("simd", dispatch="serial"), R("serial32")] if tier == "quick" else
+                 [R("simd"), R("simd", dispatch="serial"), R("serial32"), R("serial64"), R("fiat64"), R("fiat32"), R("avx512"), R("avx512", dispatch="avx2")],
+)
+
+PROPS["C04"] = _std(
+    "exploration",
+    "exhaustive enumeration of digit-transducer alphabets: for every (window index, carry-in, window value, background) of the radix-16/32/64/128/256 recodings and every (start position, window, background) of the width-5/8 NAF a scalar below 2^255 that drives the recoding through that state; "
+    "each scalar goes through every single-scalar entry point (P*s, s*P, mul_base, all five table radices, clamped variants, vartime double-base, Montgomery ladder, Ristretto wrappers) on the basepoint and on points a*B+T_j with torsion; "
+    "multiscalar entry points (CT Straus, vartime Straus/Pippenger, optional, precomputed static/dynamic mixes) at every size around 0/1/190/500/800; recoding contracts (value identity, digit ranges, non-adjacency) checked directly through hook H4. "
+    "Expected values from the (a, j) decomposition in the model. distinct_nontrivial = distinct scalars whose recodings were checked.",
+    "Exhaustive over a structured scalar/point/size alphabet that covers every state of each recoding transducer and every algorithm switch; each backend's copy via forced dispatch.",
+    "DESIGN.md section 4, C04",
+    "exhaustive enumeration of recoding-transducer states and size regimes against a reference model, per backend copy (forced dispatch)",
+    lambda tier: [R("simd"), R("simd", dispatch="serial"), R("serial32", "rel-notables")] if tier == "quick" else
+                 [R("simd"), R("simd", dispatch="serial"), R("simd", "rel-notables"), R("simd", "rel-notables", dispatch="serial"),
+                  R("serial32"), R("serial32", "rel-notables"), R("serial64"), R("fiat64"), R("fiat32"),
+                  R("avx512"), R("avx512", dispatch="avx2"), R("avx512", dispatch="serial"), R("avx512", "rel-notables")],
+)
